@@ -107,6 +107,39 @@ def tree_oracle(cfg: dict, ev: Dict[str, List[int]]) -> List[dict]:
     return innermost(bad)
 
 
+def has_empty_dict(sp) -> Optional[bool]:
+    """the repaired code's own test for "gymnasium cannot flatten this space" (None on a tree without it)"""
+    try:
+        from primaite.game.agent.interface import _has_empty_dict
+    except ImportError:
+        return None
+    return bool(_has_empty_dict(sp))
+
+
+def flatten_guard_witness(cfg: dict) -> Tuple[bool, str]:
+    """F-C02-2 regression: a proxy agent with this observation space and flatten_obs is REFUSED when it is built, with a ValueError that
+    names the cause (not numpy's 'need at least one array to concatenate' at the first access); without flatten_obs it is built."""
+    import copy
+    from primaite.game.agent.interface import AbstractAgent
+    osp, th = rig.split_cfg(cfg)
+    base = {"ref": "witness", "team": "BLUE", "type": "proxy-agent", "observation_space": osp, "thresholds": th or {}}
+    try:
+        AbstractAgent.from_config(dict(copy.deepcopy(base), agent_settings={"flatten_obs": False}))
+    except Exception as e:  # noqa: BLE001
+        return False, f"the nested agent is refused too: {type(e).__name__}: {str(e)[:160]}"
+    try:
+        agent = AbstractAgent.from_config(dict(copy.deepcopy(base), agent_settings={"flatten_obs": True}))
+    except ValueError as e:
+        ok = "cannot flatten" in str(e) and "need at least one array" not in str(e)
+        return ok, f"refused at construction: {str(e)[:160]}"
+    import gymnasium
+    try:
+        gymnasium.spaces.flatten_space(agent.observation_manager.space)
+    except ValueError as e:
+        return False, f"accepted at construction, then flatten_space raises {e}"
+    return False, "accepted and flattenable: the witness no longer contains an empty dictionary"
+
+
 def flatten_probe(sp, value, want=None):
     """(`<length> <number of leaves>` of flatten_space / flatten, or `raised`; a description when something is inconsistent)"""
     import gymnasium
@@ -164,7 +197,7 @@ def component_case(rng: Rng, n_states: int, defects: bool, invalid: bool = False
     changed = [{"class": type(o).__name__, "path": path, "detail": rig.first_diff(before[path], rig.canon(o.default_observation))}
                for path, o in nodes if rig.canon(o.default_observation) != before[path]]
     return {"capture": capture, "facts": facts, "lines": lines, "impl": impl, "space": cspace, "states": states,
-            "tree": tree_oracle(facts["cfg"], ev), "defaults_changed": innermost(changed), "objects": len(nodes), "flat_bad": flat_bad}
+            "tree": tree_oracle(facts["cfg"], ev), "defaults_changed": innermost(changed), "guard": has_empty_dict(sp), "objects": len(nodes), "flat_bad": flat_bad}
 
 
 def length_relations(ctx: Ctx, cfg: dict) -> None:
@@ -257,9 +290,10 @@ def check_case(ctx: Ctx, name: str, case: dict, model: List[str]) -> bool:
         agree = False
         ctx.violation({"kind": "model-vs-impl", "what": "flatten_space length / leaves"}, f"{name}: flatten_space gives {impl[FLAT_AT]!r}, the model {model[FLAT_AT]!r}",
                       {"case": name, "cfg": cfg})
-    if impl[FLAT_AT] == "raised":
-        ctx.violation({"kind": "flatten-raises", "site": "gymnasium.spaces.flatten", "cause": "empty-dict-subspace", "property_oracle": "flatten(space, obs) is defined"},
-                      f"{name}: the declared space contains a Dict without sub-spaces; gymnasium cannot flatten it (flatten_obs would make reset raise)",
+    # the code's own guard (ProxyAgent refuses a flattened agent with such a space) must agree with gymnasium and with the model
+    if case.get("guard") is not None and case["guard"] != (impl[FLAT_AT] == "raised"):
+        ctx.violation({"kind": "flatten-guard", "what": "_has_empty_dict(space) disagrees with gymnasium's flatten_space"},
+                      f"{name}: _has_empty_dict(space) = {case['guard']} but flatten_space {'raises' if impl[FLAT_AT] == 'raised' else 'succeeds'}",
                       {"case": name, "cfg": cfg, "flatten": True})
     if case.get("flat_bad"):
         ctx.violation({"kind": "flatten-inconsistent", "property_oracle": "len(flatten(space, obs)) == flatten_space(space).shape[0]"},
@@ -298,11 +332,12 @@ def env_recipes(ctx: Ctx, rng: Rng, truth: bool = False) -> List[dict]:
     schedules whose episodes observe different things (and one whose episodes are all alike)."""
     out: List[dict] = []
     scen = rig.SCENARIOS if ctx.thorough else rig.SCENARIOS[:6]
-    eps, steps = ctx.scale(2, 3), ctx.scale(30 if truth else 20, 60)
+    eps, steps = ctx.scale(2, 3), ctx.scale(36 if truth else 20, 60)
 
     def add(family, label, **kw):
         # one recipe in five runs under the process-wide override `NetworkInterface.nmne_config = NMNEConfig(...)` (restored afterwards)
         kw.setdefault("nmne_override", rig.gen_nmne_settings(rng) if rng.chance(1, 5) else None)
+        kw.setdefault("targeted", bool(truth))  # ground-truth runs: events inside the tick aimed at the counted leaves
         out.append(dict({"family": family, "label": label, "traj_seed": rng.next(), "variant_seed": rng.next(), "episodes": eps, "steps": steps,
                          "truth": truth, "chaos": False}, **kw))
     for rel in scen:
@@ -312,7 +347,7 @@ def env_recipes(ctx: Ctx, rng: Rng, truth: bool = False) -> List[dict]:
             add("toggle", f"{short}#toggle{i}", rel=rel, chaos=truth)
         for i in range(ctx.scale(2 if truth else 1, 2)):
             add("regen", f"{short}#regen{i}", rel=rel, chaos=truth)
-    for i in range(ctx.scale(9 if truth else 4, 18)):
+    for i in range(ctx.scale(12 if truth else 4, 18)):
         add("generated", f"generated#{i}", topology=["lan", "routed", "dmz"][i % 3], size=1 + (i // 3) % 2, episodes=2, steps=ctx.scale(20 if truth else 14, 60),
             chaos=truth and i % 3 != 2)
     for rel in env.SCHEDULE_DIRS:
@@ -338,7 +373,9 @@ def run_env_recipes(ctx: Ctx, recipes: List[dict], chaos=None) -> List[Tuple[str
         except Exception as e:  # noqa: BLE001 - an exception out of reset/step IS an observation failure when it comes from observe()
             import traceback
             tb = traceback.format_exc()
-            if "need at least one array to concatenate" in str(e) and "gymnasium/spaces/utils" in tb:
+            if "flatten_obs is set, but the observation space contains a dictionary without" in str(e):
+                ctx.count("env:configuration-refused-by-the-flatten-guard")
+            elif "need at least one array to concatenate" in str(e) and "gymnasium/spaces/utils" in tb:
                 ctx.violation({"kind": "flatten-raises", "site": "gymnasium.spaces.flatten", "cause": "empty-dict-subspace", "class": "env"},
                               f"{rc['label']}: observation_space / reset / step raise: gymnasium cannot flatten a Dict without sub-spaces",
                               {"recipe": rc, "traceback": tb[-800:]})
@@ -439,9 +476,7 @@ def replay_env(r: dict, prop: str = "C02") -> bool:
 def replay(rec: dict) -> bool:
     r = rec.get("replay", rec)
     if r.get("flatten") and "cfg" in r:
-        obj = rig.build_impl(r["cfg"])
-        dim, bad = flatten_probe(obj.space, obj.default_observation)
-        return dim != "raised" and not bad
+        return flatten_guard_witness(r["cfg"])[0]
     if "recipe" in r:
         return replay_env(r)
     if "cfg" in r and "diff" in r and "recipe" not in r:
@@ -471,9 +506,7 @@ def corpus_family(ctx: Ctx):
     for f in sorted((VERIF / "corpus" / "C02").glob("*.json")):
         rec = json.loads(f.read_text())
         if rec.get("flatten"):
-            obj = rig.build_impl(rec["cfg"])
-            dim, bad = flatten_probe(obj.space, obj.default_observation)
-            ok, detail = dim != "raised" and not bad, f"flatten: {dim} {bad or ''}"
+            ok, detail = flatten_guard_witness(rec["cfg"])
         elif "recipe" in rec or "states" in rec:
             ok, detail = replay(rec), "replayed"
         else:
